@@ -31,6 +31,8 @@ def gen_and_run(tier, seed):
     b4 = b4[:40000] if tier == "quick" else b4[:250000]
     cases += b4
     cases += [dict(c, adv=gen.ADV_KINDS[i % len(gen.ADV_KINDS)]) for i, c in enumerate(cases[:nexh3]) if i % 5 == 0]
+    # wide families (a node with three children) on classes with value-based __eq__: detaching the middle child
+    cases += [dict(c, adv=["always_equal", "container", "ordering"][i % 3]) for i, c in enumerate(b4[:6000])]
     obs = mc.run_impl(cases, PROP)
     hs = mc.random_histories(rng, 400 if tier == "quick" else 5000, 6 if tier == "quick" else 9,
                              12 if tier == "quick" else 40, mc.CLASSES, fault_ratio=0.0)
